@@ -33,10 +33,15 @@ namespace datasketches {
 
 template<typename W, typename A>
 count_min_sketch<W,A>::count_min_sketch(uint8_t num_hashes, uint32_t num_buckets, uint64_t seed, const A& allocator):
-_allocator(allocator),
+count_min_sketch(num_hashes, num_buckets, seed,
+  std::vector<W, A>((static_cast<uint64_t>(num_hashes)*num_buckets < 1<<30) ? num_hashes*num_buckets : 0, 0, allocator)) {}
+
+template<typename W, typename A>
+count_min_sketch<W,A>::count_min_sketch(uint8_t num_hashes, uint32_t num_buckets, uint64_t seed, std::vector<W, A>&& table):
+_allocator(table.get_allocator()),
 _num_hashes(num_hashes),
 _num_buckets(num_buckets),
-_sketch_array((static_cast<uint64_t>(num_hashes)*num_buckets < 1<<30) ? num_hashes*num_buckets : 0, 0, _allocator),
+_sketch_array(std::move(table)),
 _seed(seed),
 _total_weight(0) {
   if (num_hashes < 1) throw std::invalid_argument("At least one hash function is required.");
@@ -328,15 +333,19 @@ auto count_min_sketch<W,A>::deserialize(std::istream& is, uint64_t seed, const A
     throw std::invalid_argument("Incompatible seed hashes: " + std::to_string(seed_hash) + ", "
                                 + std::to_string(compute_seed_hash(seed)));
   }
-  count_min_sketch c(nhashes, nbuckets, seed, allocator);
   const bool is_empty = (flags_byte & (1 << flags::IS_EMPTY)) > 0;
-  if (is_empty == 1) return c; // sketch is empty, no need to read further.
+  if (is_empty == 1) return count_min_sketch(nhashes, nbuckets, seed, allocator); // sketch is empty, no need to read further.
 
-  // Set the sketch weight and read in the sketch values
+  // Set the sketch weight and read in the sketch values.
+  // The table size came from the image: the table grows as its data arrives, so that a size
+  // that is not backed by the stream ends in a read error and not in one huge allocation.
   const auto weight = read<W>(is);
-  c._total_weight += weight;
-  read(is, c._sketch_array.data(), sizeof(W) * c._sketch_array.size());
   if (!is.good()) throw std::runtime_error("error reading from std::istream");
+  std::vector<W, A> table(allocator);
+  const uint64_t table_size = static_cast<uint64_t>(nhashes) * nbuckets;
+  if (table_size < 1 << 30) read(is, table, static_cast<size_t>(table_size)); // larger sizes are rejected by the constructor
+  count_min_sketch c(nhashes, nbuckets, seed, std::move(table));
+  c._total_weight += weight;
 
   return c;
 }
